@@ -6,6 +6,7 @@ import (
 	"fmt"
 	"go/token"
 	"go/types"
+	"os"
 	"sort"
 	"strings"
 
@@ -138,6 +139,9 @@ func (e *Engine) guardedOnAllPaths(in ssa.Instruction, q Req) (bool, []ssa.Instr
 			}
 			if ifi != nil && n.b.Succs[0] != n.b.Succs[1] {
 				if r.holds(q, expandFacts([]Fact{{ifi.Cond, i == 0}}), 2) {
+					if os.Getenv("DBCHECK_DEBUG_GUARD") != "" {
+						fmt.Fprintf(os.Stderr, "guard-debug: [%s] established on edge %d of %s: %s\n", q.Name, i, e.ipos(ifi), strings.Join(e.describeFacts([]Fact{{ifi.Cond, i == 0}}), ";"))
+					}
 					continue // this edge establishes the fact
 				}
 			}
